@@ -144,7 +144,7 @@ class RefStore:
         if sc.get("max_age") is not None:
             try:
                 delta = int(sc["max_age"])
-                expiry = now + delta
+                expiry = now + max(min(delta, 10 ** 12), -10 ** 12)  # any number of digits is a number
             except ValueError:
                 # RFC 6265 5.2.2: a Max-Age that is not a number is ignored, so Expires (if any, and if it parses) applies
                 expiry = None
@@ -229,6 +229,14 @@ def set_cookie_header(sc: dict) -> str:
     return "; ".join(parts)
 
 
+def feed_header(jar, header: str, url) -> None:
+    """A Set-Cookie header is the peer's text: the jar takes it or ignores it, it never raises."""
+    try:
+        jar.update_cookies_from_headers([header], url)
+    except Exception as e:  # noqa: BLE001
+        raise Violation(hyp.exc_key(e, "jar-raised"), f"update_cookies_from_headers({header[:80]!r}{'...' if len(header) > 80 else ''}, {url}) raised {type(e).__name__}: {e}")
+
+
 def execute(case: dict) -> dict:
     from yarl import URL
 
@@ -302,7 +310,7 @@ def execute(case: dict) -> dict:
                 if sc.get("expires_in") is not None:
                     sc["expires"] = float(int(clock.now + sc.pop("expires_in")))
                 ref.set_cookie(sc, url, clock.now)
-                jar.update_cookies_from_headers([set_cookie_header(sc)], URL(f"{url[0]}://{url[1]}{url[2]}"))
+                feed_header(jar, set_cookie_header(sc), URL(f"{url[0]}://{url[1]}{url[2]}"))
                 history.append((sc, url))
             elif kind == "repeat":
                 # the very same Set-Cookie header again (same value, same absolute Expires), e.g. after a clear() or a reload
@@ -311,7 +319,7 @@ def execute(case: dict) -> dict:
                 sc0, url = history[-1]
                 sc = dict(sc0)
                 ref.set_cookie(sc, url, clock.now)
-                jar.update_cookies_from_headers([set_cookie_header(sc)], URL(f"{url[0]}://{url[1]}{url[2]}"))
+                feed_header(jar, set_cookie_header(sc), URL(f"{url[0]}://{url[1]}{url[2]}"))
                 history.append((sc, url))
             elif kind == "set_plain":
                 # the other way in: jar.update_cookies({name: value}, url) - a host-only cookie with the default path
@@ -339,7 +347,7 @@ def execute(case: dict) -> dict:
                 if sc.get("expires") is not None and sc.get("max_age") is None:
                     pass
                 ref.set_cookie(sc, url, clock.now)
-                jar.update_cookies_from_headers([set_cookie_header(sc)], URL(f"{url[0]}://{url[1]}{url[2]}"))
+                feed_header(jar, set_cookie_header(sc), URL(f"{url[0]}://{url[1]}{url[2]}"))
                 history.append((sc, url))
                 stats["reissue"] = stats.get("reissue", 0) + 1
             elif kind == "churn":
@@ -351,7 +359,7 @@ def execute(case: dict) -> dict:
                     counter += 1
                     sc = {"name": "z", "value": f"v{counter}", "max_age": str(lifetimes[k % len(lifetimes)])}
                     ref.set_cookie(sc, url, clock.now)
-                    jar.update_cookies_from_headers([set_cookie_header(sc)], URL(f"{url[0]}://{url[1]}{url[2]}"))
+                    feed_header(jar, set_cookie_header(sc), URL(f"{url[0]}://{url[1]}{url[2]}"))
                     if k % 40 == 39:
                         jar.filter_cookies(URL(f"{url[0]}://{url[1]}{url[2]}"))  # a request in between (runs the expiry sweep)
                 history.append((sc, url))
@@ -417,7 +425,7 @@ def set_cookie_st(trailing_slash: bool):
             "domain": st.sampled_from(DOMAINS),
             "path": st.sampled_from(paths),
             "secure": st.booleans(),
-            "max_age": st.sampled_from(["0", "5", "50", "-1", "abc"]),
+            "max_age": st.sampled_from(["0", "5", "50", "-1", "abc", "9" * 400, "-" + "9" * 400]),
             "expires_in": st.sampled_from([-10, 5, 50]),
             "expires_abs": st.sampled_from([None, None, None, None, None, None, 0, 1]),
             "date_fmt": st.sampled_from(list(range(9)) + [100, 103, 105]),
